@@ -68,6 +68,7 @@ class C20(Check):
         "(perm) every permutation of every k-subset of a 20-name pool through scaffolds_sorted_by_name and "
         "smart_sort_scaffolds -> same key sequence; (facts) numeric / roman / unloc / rank families. "
         "non-trivial = case whose key contains a number token (digits or roman numeral), counted per distinct case"
+        " After sorting, scaffolds are renamed in place and the same object sorted again; ranks 0-4."
     )
     assumptions = [
         "names outside the enumerated alphabets/lengths are covered only by the listed families",
